@@ -409,6 +409,33 @@ Section KeySetProofs.
     (addall empty_p ks = None <-> exists i j a b, i < j /\ nth_error ks i = Some a /\ nth_error ks j = Some b /\ keq a b = true).
   Proof. apply add_rejects_duplicates. right. reflexivity. Qed.
 
+  (* AddAllMapKeys: the keys of a Go map come in an arbitrary order; rejection does not depend on it *)
+  Lemma dup_free_perm ks ks' : Forall good ks -> Permutation ks ks' -> dup_free ks -> dup_free ks'.
+  Proof.
+    intros Hgood HP. induction HP as [|x l l' HP IH|x y l|l l' l'' HP1 IH1 HP2 IH2]; intros HF.
+    - exact HF.
+    - inversion HF as [|x' l0 HFx HFl]; subst. inversion Hgood as [|x' l0 Hx Hl]; subst.
+      constructor; [exact (Permutation_Forall HP HFx)|exact (IH Hl HFl)].
+    - inversion HF as [|y' l0 HFy HFxl]; subst. inversion HFxl as [|x' l1 HFx HFl]; subst.
+      inversion HFy as [|x' l1 Hyx HFyl]; subst.
+      inversion Hgood as [|y' l1 Hy Hxl]; subst. inversion Hxl as [|x' l2 Hx Hl]; subst.
+      constructor; [constructor; [rewrite (keq_sym x y Hx Hy); exact Hyx|exact HFx]|].
+      constructor; [exact HFyl|exact HFl].
+    - apply IH2; [exact (Permutation_Forall HP1 Hgood)|]. apply IH1; [exact Hgood|exact HF].
+  Qed.
+
+  Lemma add_all_none_perm : forall s0, s0 = empty_g \/ s0 = empty_p ->
+    forall ks ks', Forall good ks -> Permutation ks ks' -> (addall s0 ks = None <-> addall s0 ks' = None).
+  Proof.
+    intros s0 Hs0 ks ks' Hgood HP.
+    pose proof (Permutation_Forall HP Hgood) as Hgood'.
+    rewrite !none_iff_not_some.
+    rewrite (add_all_ok_iff s0 Hs0 ks Hgood), (add_all_ok_iff s0 Hs0 ks' Hgood').
+    split; intros H HF; apply H.
+    - exact (dup_free_perm ks' ks Hgood' (Permutation_sym HP) HF).
+    - exact (dup_free_perm ks ks' Hgood HP HF).
+  Qed.
+
   (* ---- B *)
   Lemma keys_perm_g : forall ks s, addall empty_g ks = Some s -> Permutation (keys key s) ks.
   Proof. intros ks s H. destruct (add_all_g_inv ks s H) as [g [-> [_ HP]]]. exact HP. Qed.
@@ -663,6 +690,12 @@ Section KeySetProofs.
   Lemma locate_unknown : forall s0, s0 = empty_g \/ s0 = empty_p ->
     forall ks s k, addall s0 ks = Some s -> (forall o, In o ks -> keq o k = false) -> loc s k = None.
   Proof. intros s0 [->| ->]; [apply locate_unknown_g|apply locate_unknown_p]. Qed.
+
+  (* a stranger landing in the bucket of a requested key (even a bucket of size one) is still not found *)
+  Lemma locate_unrequested_colliding_is_none : forall s0, s0 = empty_g \/ s0 = empty_p ->
+    forall ks s k o, addall s0 ks = Some s -> In o ks -> khash k = khash o ->
+    (forall o', In o' ks -> keq o' k = false) -> loc s k = None.
+  Proof. intros s0 Hs0 ks s k o Hs _ _ Hall. exact (locate_unknown s0 Hs0 ks s k Hs Hall). Qed.
 
   Lemma fill_unknown_is_error : forall s0, s0 = empty_g \/ s0 = empty_p ->
     forall ks s entries m0 raw op k,
